@@ -331,7 +331,10 @@ Qed.
 Theorem Sync_enter_alt shared rz t r above : Sync rz t r above ->
   Sync rz (vt_run shared t (snd (r_enter_alt r))) (fst (r_enter_alt r)) above.
 Proof.
-  intros S. unfold r_enter_alt. destruct (r_alt r) eqn:Ea; [exact S|]. cbn [fst snd].
+  intros S.
+  assert (Hq0 : r_queued r = []) by (destruct S as [_ _ _ Hq0 _ _ _]; exact Hq0).
+  rewrite (enter_alt_no_queue r Hq0).      (* no printed line is waiting in these histories: no flush before the switch *)
+  unfold r_enter_alt_core. destruct (r_alt r) eqn:Ea; [exact S|]. cbn [fst snd].
   destruct S as [HW HH Hia Hq Hlines Hin Halt]. rewrite Ea in Hia.
   destruct (Hin Ea) as [Hrz (region & below & k & SI)].
   destruct SI as [G Hrw Hrh Hral Hcache Hnocache].
